@@ -23,8 +23,8 @@ ASSUMPTIONS = [
     "rule patterns are read through the regex-level reference R1 (vf/ref/rulelang.py); the implicit rule texts themselves are taken from annet.implicit._implicit_tree (data)",
     "reference completion adds, with a default block, the defaults nested in it (what idempotence requires)",
 ]
-FLOORS = {"quick": {"completions": 2000, "defaults_added": 2000, "defaults_suppressed": 1000, "patches_checked": 1500, "front_runs": 150, "front_safe_runs": 150},
-          "thorough": {"completions": 100000, "defaults_added": 100000, "defaults_suppressed": 50000, "patches_checked": 70000, "front_runs": 7000, "front_safe_runs": 7000}}
+FLOORS = {"quick": {"completions": 2000, "defaults_added": 2000, "defaults_suppressed": 1000, "patches_checked": 1500, "front_runs": 150, "front_safe_runs": 150, "front_runs_clear_mode": 150},
+          "thorough": {"completions": 100000, "defaults_added": 100000, "defaults_suppressed": 50000, "patches_checked": 70000, "front_runs": 7000, "front_safe_runs": 7000, "front_runs_clear_mode": 7000}}
 MODELS = [("Huawei CE6870", ()), ("Huawei NE40E-X8", ()), ("Huawei Quidway S5300", ()), ("Arista DCS-7050", ()),
           ("Cisco Nexus 3132", ()), ("Cisco Nexus 3432", ()), ("Cisco Nexus 9316", ()), ("Cisco Nexus N9K-C9364", ()), ("Cisco Nexus 9504", ("spine1",)),
           ("Cisco Nexus 9504", ()), ("Cisco Nexus 5548", ()), ("Cisco Catalyst 2960", ()), ("Cisco Catalyst 3560", ()), ("Cisco Catalyst 3650", ()), ("Cisco Catalyst 6500", ())]
@@ -248,8 +248,9 @@ def mutate(rng, t, rules):
     return out
 
 
-def check_front(seed, acc):
-    """production composition: _old_new_per_device(add_implicit=True) then _diff_and_patch"""
+def check_front(seed, acc, clear=False):
+    """production composition: _old_new_per_device(add_implicit=True) then _diff_and_patch; clear=True: the --clear mode (nothing is
+    generated, the device is to be emptied of what the generators own)"""
     from annet.api import _diff_and_patch
     from annet.annlib.patching import strip_unchanged
     from annet.generators import GeneratorError
@@ -264,10 +265,15 @@ def check_front(seed, acc):
     fmt = v.make_formatter()
     t = [] if rng.random() < 0.3 else gen_tree(rng, rules)
     u = gen_tree(rng, rules)
-    w = {"front": True, "seed": seed, "model": model, "tags": list(tags), "tree": t, "other": u}
+    if clear:
+        t = t or gen_tree(rng, rules)
+        acc.count("front_runs_clear_mode")
+    w = {"front": True, "clear": clear, "seed": seed, "model": model, "tags": list(tags), "tree": t, "other": u}
     gen = H.make_partial("GenAll", v.NAME, "~ %global", H.tree_runner(u))
+    if clear:
+        u = []
     try:
-        res = H.old_new(dev, [gen], fmt.join(unplain(t)), add_implicit=True)
+        res = H.old_new(dev, [gen], fmt.join(unplain(t)), add_implicit=True, no_new=clear)
         if res.err:
             raise res.err
         diff, patch = _diff_and_patch(dev, res.old, res.new, res.acl_rules, res.filter_acl_rules, False)
@@ -368,7 +374,10 @@ def run_shard(spec, acc):
         if w.get("front") == "safe":
             check_front_safe(w["seed"], acc)
         else:
-            (check_front if w.get("front") else check_case)(w["seed"], acc)
+            if w.get("front"):
+                check_front(w["seed"], acc, clear=bool(w.get("clear")))
+            else:
+                check_case(w["seed"], acc)
         return
     tier, k, n = spec["tier"], spec["shard"], spec["nshards"]
     total = 3000 if tier == "quick" else 120000
@@ -381,3 +390,5 @@ def run_shard(spec, acc):
             check_front(rng.randrange(1 << 48), acc)
         if j % 8 == 4:
             check_front_safe(rng.randrange(1 << 48), acc)
+        if j % 8 == 6:
+            check_front(rng.randrange(1 << 48), acc, clear=True)
